@@ -146,7 +146,8 @@ func NewEngine(c EngCfg) *liquid.Engine {
 	// the scheduler, which relies on addresses not being reused during a run), so that a
 	// later temporary may well get the address of an earlier one.
 	e.RegisterFilter("kv", func(v any, k string) map[string]any {
-		if !simrt.Scheduling() {
+		if !simrt.Scheduling() && kvGCs < 2 { // (at most two collections per library call: a collection costs milliseconds)
+			kvGCs++
 			runtime.GC()
 		}
 		return map[string]any{"k": k, "v": v}
@@ -252,8 +253,11 @@ var fuelOuts int
 var guardMaxSteps int64
 
 // guard runs f, converting a panic into a Res.
+var kvGCs int
+
 func guard(f func() Res) (res Res) {
 	simrt.Fuel = stepFuel
+	kvGCs = 0
 	defer func() {
 		used := stepFuel - simrt.Fuel
 		simrt.Fuel = 0
